@@ -2,6 +2,8 @@ mod backend;
 mod checks;
 mod e1;
 mod e3;
+mod e4;
+mod watch;
 mod names;
 mod ops;
 mod refmodel;
